@@ -10,6 +10,7 @@ use serde_saphyr::verif_hooks::snippet as h;
 use serde_saphyr::{
     DefaultMessageFormatter, Error, MessageFormatter, Options, RenderOptions, SnippetMode, UserMessageFormatter,
 };
+use validator::Validate as _;
 use std::borrow::Cow;
 use std::collections::{BTreeMap, BTreeSet, HashMap};
 use std::io::Write as _;
@@ -484,6 +485,30 @@ struct Form {
     #[garde(skip)] e: i32,
 }
 
+/// garde- and validator-validated NESTED types: the paths of the issues run through attacker-controlled map keys,
+/// sequence indices and nested structs — every place where a path segment can be reflected into a report
+#[derive(Debug, Deserialize, garde::Validate, validator::Validate)]
+#[allow(dead_code)]
+struct VInner {
+    #[garde(length(min = 2))] #[validate(length(min = 2))] name: String,
+    #[garde(range(min = 1024))] #[validate(range(min = 1024))] port: u16,
+}
+#[derive(Debug, Deserialize, garde::Validate)]
+#[allow(dead_code)]
+struct VOuterG {
+    #[garde(length(min = 2))] title: String,
+    #[garde(dive)] #[serde(default)] listeners: HashMap<String, VInner>,
+    #[garde(dive)] #[serde(default)] list: Vec<VInner>,
+    #[garde(dive)] #[serde(default)] deep: HashMap<String, HashMap<String, Vec<VInner>>>,
+}
+#[derive(Debug, Deserialize, validator::Validate)]
+#[allow(dead_code)]
+struct VOuterV {
+    #[validate(length(min = 2))] title: String,
+    #[validate(nested)] #[serde(default)] listeners: HashMap<String, VInner>,
+    #[validate(nested)] #[serde(default)] list: Vec<VInner>,
+}
+
 struct CustomFmt;
 impl MessageFormatter for CustomFmt {
     fn format_message<'a>(&self, err: &'a Error) -> Cow<'a, str> {
@@ -582,6 +607,11 @@ impl Oracle {
         self.control_scan("C17-snippet", chan, src, out, '|');
         let loc = err.location();
         let col = loc.map(|l| l.column() as usize).unwrap_or(0);
+        let mut cols: Vec<usize> = vec![col];
+        for (i, _) in out.match_indices(" column ") {
+            let digits: String = out[i + 8..].chars().take_while(|c| c.is_ascii_digit()).collect();
+            if let Ok(c) = digits.parse::<usize>() { cols.push(c); }
+        }
         for bl in &blocks {
             if bl.len() > 5 {
                 self.fail("C17-window-more-than-5-lines", &format!("channel {chan}: snippet block shows {} source lines", bl.len()),
@@ -591,7 +621,9 @@ impl Oracle {
                 for (_, content) in bl {
                     let n = content.chars().count();
                     // a context line that ends left of the crop window is kept whole (documented)
-                    let kept_whole = n < col.saturating_sub(radius).max(1);
+                    // (a report with several located issues — validation errors — has one window per issue, each cropped
+                    // around ITS column: the columns are read off the `line L column C` headers of the report)
+                    let kept_whole = cols.iter().any(|c| n < c.saturating_sub(radius).max(1));
                     if n > 2 * radius + 3 && !kept_whole {
                         self.fail("C17-line-wider-than-crop", &format!("channel {chan}: shown line has {n} characters with radius {radius}"),
                                   &hex(src), &hex(out), "≤ 2·radius+1 source characters plus two ellipses");
@@ -928,6 +960,37 @@ fn oracle(a: &Args, rng: &mut Rng, sink: &mut Sink) -> (u64, BTreeMap<String, u6
             }
             Some(Ok(_)) => o.count("parsed_ok"),
             None => o.fail("C17-entry-panic", "from_str_valid panicked", &hex(&doc), "panic", "Ok or Err"),
+        }
+    }
+    // validation reports whose issue paths run through hostile map keys (YAML escapes for ESC / CSI / DEL / NEL / NUL /
+    // BEL), at one and at three levels of nesting, beside a top-level issue; garde and validator; every renderer
+    {
+        let keys: [&str; 9] = ["\\e[31mred\\e[0m", "\\e]0;t\\a", "\\u009b31m", "x\\x7fy", "a\\Nb", "\\x90d\\x9c", "nul\\0z", "cr\\rlf", "plain key"];
+        for (ki, k) in keys.iter().enumerate() {
+            for shape in 0..4u8 {
+                let doc = match shape {
+                    0 => format!("title: ok\nlisteners:\n  \"{k}\":\n    name: x\n    port: 80\n"),
+                    1 => format!("title: t\nlisteners:\n  fine: {{name: good, port: 2000}}\n  \"{k}\": {{name: good, port: 1}}\nlist:\n- {{name: y, port: 3000}}\n"),
+                    2 => format!("title: ok\ndeep:\n  \"{k}\":\n    \"in{k}\":\n    - {{name: good, port: 2000}}\n    - name: z\n      port: 9\n"),
+                    _ => format!("title: ok\nlist:\n- name: good\n  port: 2000\n- name: \"{k}\"\n  port: 7\n"),
+                };
+                for radius in [1usize, 64] {
+                    let mk = || { let mut op = Options::default(); op.crop_radius = radius; op.with_snippet = true; op };
+                    match guarded(|| serde_saphyr::from_str_with_options_valid::<VOuterG>(&doc, mk())) {
+                        Some(Err(e)) => { o.count("errors.valid.nested.garde"); o.render_all("valid-nested/garde", &doc, &e, radius, true); }
+                        Some(Ok(_)) => o.count("parsed_ok"),
+                        None => o.fail("C17-entry-panic", "from_str_with_options_valid panicked", &hex(&doc), "panic", "Ok or Err"),
+                    }
+                    if shape != 2 {
+                        match guarded(|| serde_saphyr::from_str_with_options_validate::<VOuterV>(&doc, mk())) {
+                            Some(Err(e)) => { o.count("errors.valid.nested.validator"); o.render_all("valid-nested/validator", &doc, &e, radius, true); }
+                            Some(Ok(_)) => o.count("parsed_ok"),
+                            None => o.fail("C17-entry-panic", "from_str_with_options_validate panicked", &hex(&doc), "panic", "Ok or Err"),
+                        }
+                    }
+                }
+                let _ = ki;
+            }
         }
     }
     // the full pipeline on generated (text, location, radius) through a `Message` error: exercises
